@@ -334,8 +334,14 @@ func runScaleStream(seed int64, n int, out, backendSpec, tier string) *RunReport
 	for round := 0; round < n; round++ {
 		for _, be := range backendsOf(backendSpec) {
 			for _, size := range sizes {
-				idxs := idxSets[(round+size)%len(idxSets)]
-				for sc := 0; sc < 6; sc++ {
+				for sc := 0; sc < 7; sc++ {
+					idxs := idxSets[(round+size+sc)%len(idxSets)]
+					if size > 1024 && sc <= 1 {
+						idxs = []string{"a"} // the rewritten field is indexed and drives the selection
+					}
+					if sc == 4 && len(idxs) == 0 {
+						idxs = []string{"g", "a"}
+					}
 					env, err := newEnv(be)
 					if err != nil {
 						f.failf("open: %v", err)
@@ -377,7 +383,11 @@ func runScaleStream(seed int64, n int, out, backendSpec, tier string) *RunReport
 					}
 					// the selecting query
 					var qs QSpec
-					switch (sc + round) % 5 {
+					qsel := (sc + round) % 5
+					if size > 1024 && sc <= 1 {
+						qsel = 1 + 2*sc // a range on a / a sort on a: the scan runs through the index being rewritten
+					}
+					switch qsel {
 					case 0:
 						qs = QSpec{Coll: "c"}
 					case 1:
@@ -389,6 +399,9 @@ func runScaleStream(seed int64, n int, out, backendSpec, tier string) *RunReport
 							{Kind: "sort", Opts: []SortOpt{{"a", -1}, {"_id", 1}}}, {Kind: "skip", N: 3}, {Kind: "limit", N: 120}}}
 					default:
 						qs = QSpec{Coll: "c", Steps: []QStep{{Kind: "sort", Opts: []SortOpt{{"a", 1}}}}}
+					}
+					if sc == 6 { // Delete through a sorted window without a limit
+						qs = QSpec{Coll: "c", Steps: []QStep{{Kind: "sort", Opts: []SortOpt{{"k", -1}}}, {Kind: "skip", N: 4}}}
 					}
 					before, _ := db.FindAll(query.NewQuery("c"))
 					beforeById := map[string]*d.Document{}
@@ -475,7 +488,7 @@ func runScaleStream(seed int64, n int, out, backendSpec, tier string) *RunReport
 							}
 						}
 						distinct[fmt.Sprintf("update/%d/%d/%s", sc, len(idxs), sizeClass(size))] = true
-					case 2: // Delete
+					case 2, 6: // Delete
 						r := rec(&Op{Kind: "Delete", Q: qs})
 						evals++
 						if errKind(r) != "e0" {
